@@ -54,6 +54,8 @@ type Path struct {
 	snaps     []*Term
 	funcsWithAddr []*FuncV
 	logCalls  int
+	failedHere bool
+	lastSchedule []int
 }
 
 type witness struct {
@@ -139,6 +141,9 @@ type Interp struct {
 	methodExprs map[*ssa.Function]*FuncV
 	extraFuncs []*FuncV
 	symStrHooks map[string]symStrHook
+	xWanted    int
+	xPerHarness map[string]int
+	xsamples   []*XSample
 }
 
 func NewInterp(prog *ssa.Program, arch string) *Interp {
@@ -148,7 +153,7 @@ func NewInterp(prog *ssa.Program, arch string) *Interp {
 		maxSteps: 200_000_000, maxSymIndex: 64, maxDecisions: 100000,
 		reroute: map[string]*ssa.Function{}, fnsSeen: map[string]int{}, stubsSeen: map[string]int{},
 		seenViol: map[string]bool{}, assertIDs: map[string]bool{}, arch: arch,
-		queryDump: map[string]string{}, rtypes: map[string]*RType{}, queryHashes: map[uint64]bool{}, symStrHooks: map[string]symStrHook{},
+		queryDump: map[string]string{}, rtypes: map[string]*RType{}, queryHashes: map[uint64]bool{}, symStrHooks: map[string]symStrHook{}, xPerHarness: map[string]int{},
 	}
 	in.sizes = types.SizesFor("gc", arch)
 	for _, p := range prog.AllPackages() {
@@ -424,6 +429,15 @@ func pureBlock(b *ssa.BasicBlock) bool {
 
 // ---- driver ----
 
+// XSample is one completed path's inputs and expected observations, used to cross-validate
+// the symbolic encoding against a native run of the same harness (translator validation).
+type XSample struct {
+	Harness  string            `json:"harness"`
+	Model    map[string]string `json:"model"`
+	Schedule []int             `json:"schedule,omitempty"`
+	Expect   map[string]string `json:"expect"` // witness name -> value under the model
+}
+
 type HarnessResult struct {
 	Stats      *HarnessStats
 	Violations []*Violation
@@ -533,6 +547,7 @@ func (in *Interp) runPath(fn *ssa.Function) {
 		}
 		switch x := r.(type) {
 		case nil:
+			in.takeSample()
 		case pathEnd:
 		case pathAbort:
 			in.stats.Aborted++
@@ -566,6 +581,7 @@ func (in *Interp) onUncaughtPanic(gp *goPanic) {
 
 func (in *Interp) reportViolation(id, class, site, kind, note string, extra *Term) {
 	in.stats.Violated++
+	in.path.failedHere = true
 	key := id + "|" + class
 	if in.seenViol[key] {
 		return
@@ -632,4 +648,60 @@ func collectSelectIdx(ts []*Term) []*Term {
 		walk(t)
 	}
 	return out
+}
+
+// takeSample records a model of the finished path for native cross-validation.
+func (in *Interp) takeSample() {
+	if in.xWanted <= 0 || in.xPerHarness[in.harness] >= in.xWanted {
+		return
+	}
+	p := in.path
+	if p.failedHere {
+		return
+	}
+	// spread samples over the exploration: take paths 0, 1, then every 7th
+	n := in.stats.Paths
+	if n > 1 && n%7 != 0 {
+		return
+	}
+	var ts []*Term
+	var names []string
+	for _, nm := range p.nondetOrd {
+		ts = append(ts, p.nondets[nm])
+		names = append(names, nm)
+	}
+	nN := len(ts)
+	for _, w := range p.witnesses {
+		ts = append(ts, w.t)
+	}
+	idxs := collectSelectIdx(append([]*Term{}, p.pc...))
+	base := ArrVar("image0")
+	nW := len(ts)
+	for _, ix := range idxs {
+		ts = append(ts, ix, Select(base, ix))
+	}
+	r, vals := in.solver.Check(p.pc, nil, ts)
+	if r != Sat {
+		return
+	}
+	s := &XSample{Harness: in.harness, Model: map[string]string{}, Expect: map[string]string{}}
+	for i, nm := range names {
+		s.Model[nm] = fmt.Sprintf("0x%x", vals[i])
+	}
+	for i, w := range p.witnesses {
+		if strings.HasPrefix(w.name, "fv") {
+			continue
+		}
+		s.Expect[w.name] = fmt.Sprintf("0x%x", vals[nN+i])
+	}
+	for k := nW; k+1 < len(vals); k += 2 {
+		s.Model[fmt.Sprintf("img:0x%x", vals[k])] = fmt.Sprintf("0x%x", vals[k+1])
+	}
+	if p.threads != nil {
+		s.Schedule = append([]int(nil), p.threads.schedule...)
+	} else if p.lastSchedule != nil {
+		s.Schedule = p.lastSchedule
+	}
+	in.xPerHarness[in.harness]++
+	in.xsamples = append(in.xsamples, s)
 }
